@@ -42,7 +42,7 @@ OPS = ['finalize', 'unlock_enter', 'unlock_exit_ok', 'unlock_exit_raise', 'bind_
        'parse_unbound_macro', 'parse_placeholder', 'parse_required', 'bind_tuple_x', 'parse_block_z',
        'define_macro', 'parse_macro_y_evaluated', 'parse_macro_z_unevaluated', 'parse_macro_y_short_ref',
        'finalize_in_scope', 'parse_macro_z_dictkey', 'bind_x_in_other_thread', 'parse_scoped_y',
-       'parse_y_one', 'hook_y_true', 'unlock_create', 'unlock_enter_pending']
+       'parse_y_one', 'hook_y_true', 'unlock_create', 'unlock_enter_pending', 'parse_placeholder_in_macro']
 UNIVERSE = ['c12.f.x', 'c12.f.y', 'c12.f.z']
 
 
@@ -162,7 +162,7 @@ class World:
       return 'ValueError', None
     if 'uneval' in self.kinds.values():
       return 'ValueError', None
-    if 'placeholder' in self.bad:
+    if 'placeholder' in self.bad or 'placeholder_in_macro' in self.kinds.values():
       return 'ValueError', None
     if 'required' in self.bad:
       return 'ValueError', None
@@ -237,7 +237,7 @@ class World:
       elif op in ('bind_x', 'bind_tuple_x', 'parse_y', 'parse_block_z', 'parse_unbound_macro', 'parse_placeholder',
                   'parse_required', 'define_macro', 'parse_macro_y_evaluated', 'parse_macro_z_unevaluated',
                   'parse_macro_y_short_ref', 'parse_macro_z_dictkey', 'bind_x_in_other_thread', 'parse_scoped_y',
-                  'parse_y_one'):
+                  'parse_y_one', 'parse_placeholder_in_macro'):
         mutator = True
         if self.locked:
           exp_out = 'RuntimeError'
@@ -323,6 +323,10 @@ class World:
             self.config['c12.f.x'] = 'PLACEHOLDER'
             self.bad = {'placeholder'}
           gin.parse_config('c12.f.x = @no_such_fn()', skip_unknown=True)
+        elif op == 'parse_placeholder_in_macro':
+          if not self.locked:
+            self.kinds['holder'] = 'placeholder_in_macro'     # the unknown reference sits (nested) in a macro's VALUE
+          gin.parse_config("holder = {'k': [@no_such_fn]}", skip_unknown=True)
         elif op == 'parse_required':
           if not self.locked:
             self.config['c12.f.x'] = '%gin.REQUIRED'
